@@ -131,3 +131,38 @@ Theorem C07_condition :
 Proof. exact (@C07_condition). Qed.
 Print Assumptions C07_condition.
 
+
+(* a RolloutProgressing condition names the child this sync's gated move selected: an older
+   revision claimed and listed it before, only the latest lists it after, and the observed
+   child is not already in the latest desired state *)
+From MC Require Proofs.RollClaims Proofs.RollMoves Proofs.C08Termination Proofs.Round6Rolling.
+Theorem C07_progressing_names_the_moved_child :
+  forall (c : ccfg) (pns : string) (observed : umap) (latest : prev) (rest : list prev)
+         (l' : prev) (rest' : list prev) (st : rollout_state) (cond : json),
+  C08Termination.gk_unique_all (latest :: rest) = true ->
+  C08Termination.children_desired pns latest = true ->
+  sync_rolling_update c pns observed (latest :: rest) = Some (l' :: rest', st) ->
+  status_condition (JObj [("status", hr_status (pr_resp l'))]) "Updated" = Some cond ->
+  cond_field cond "reason" = "RolloutProgressing" ->
+  exists (o : json) (prs1 : list prev) (cl1 : claims) (qA : prev) (restA : list prev) (clA : claims)
+         (i : nat) (older : prev),
+    sync_revision_claims c (pr_desired latest) 0 (latest :: rest) [] = (prs1, cl1) /\
+    first_pass c pns observed prs1 cl1 = (qA :: restA, clA) /\
+    In (Some o) (hr_children (pr_resp latest)) /\
+    is_rolling c (group_of (get_api_version o)) (get_kind o) = true /\
+    st = RProgressing (get_kind o) (relative_name pns o) /\
+    cond_field cond "message" = ("updating " ++ get_kind o ++ " " ++ relative_name pns o)%string /\
+    second_pass c pns observed (qA :: restA) clA =
+      (RollMoves.addf (C08Termination.key_of pns o) qA :: map (RollMoves.remf (C08Termination.key_of pns o)) restA, st) /\
+    claimant clA (C08Termination.key_of pns o) = Some (S i) /\
+    nth_error (qA :: restA) (S i) = Some older /\
+    RollMoves.listsP older (C08Termination.key_of pns o) = true /\
+    RollMoves.listsP qA (C08Termination.key_of pns o) = false /\
+    RollMoves.listsP l' (C08Termination.key_of pns o) = true /\
+    (forall p : prev, In p rest' -> RollMoves.listsP p (C08Termination.key_of pns o) = false) /\
+    (forall (av : string) (d : json),
+       In (av, get_kind o, relative_name pns o, d) (pr_desired latest) ->
+       group_of av = group_of (get_api_version o) ->
+       Round6Rolling.really_changes pns observed (C08Termination.key_of pns o) d).
+Proof. exact Round6Rolling.C07_progressing_names_the_moved_child. Qed.
+Print Assumptions C07_progressing_names_the_moved_child.
